@@ -13,7 +13,7 @@ RULE = ('rate: call histories (1-14 calls; gaps/sleep overshoots/durations in ti
         'empty) files and possibly empty payloads; in half of the cache histories the server answers differently from call to call (empty '
         'answers, CRLF FASTA, GenBank records with complement()/join() features when rettype=gb) and every sequence returned by get_* is '
         'compared - id, residues, feature types, locations and strands - with read(payload) and with a hand-written expectation, cached or '
-        'not, and re-inspected after every later call; client (round 7): histories (1-8 calls, and long ones of 12-40 calls) on ONE client object over the whole API (fetch_seq/get_seq/fetch_basket/get_basket, client.path and path= incl. empty string / trailing slash / tilde / Path objects, ext None/empty/dotted, up to 9 ids incl. dotted, case variants, hidden names, duplicates in lists), api_key switched between calls (None, empty string, two keys), requests failing in requests.get or raise_for_status, per-request sleep overshoot and duration; start times, sleeps, key sent, files and results compared with run_C19_client; non-trivial = distinct history in which a sleep happened (rate) or a cache hit happened (cache)')
+        'not, and re-inspected after every later call; client (round 7): histories (1-8 calls, and long ones of 12-40 calls) on ONE client object over the whole API (fetch_seq/get_seq/fetch_basket/get_basket, client.path and path= incl. empty string / trailing slash / tilde / Path objects, ext None/empty/dotted, up to 9 ids incl. dotted, case variants, hidden names, duplicates in lists), api_key switched between calls (None, empty string, two keys), requests failing in requests.get or raise_for_status, per-request sleep overshoot and duration; start times, sleeps, key sent, files and results compared with run_C19_client; names: 275 (path, id, ext) triples incl. ids with slash, dot-dot, absolute ids, dotted extensions run through fetch_seq with the file system shimmed away and compared with the model file-name function; extra (oracle only): exhaustive timing boxes without key (length <= 4 quick / 7 thorough), with key after 9 immediate requests (length <= 3 / 5), and every key-switch sequence (length <= 3 / 6) after three kinds of past; non-trivial = distinct history in which a sleep happened (rate) or a cache hit happened (cache)')
 TRUSTED = ['time.sleep sleeps at least its argument, perf_counter is monotone (environment assumptions of the model: eps >= 0, gap >= 0, dur >= 0)',
            'no time passes between recording a request time and issuing the request (the model identifies them)',
            'float arithmetic on multiples of 2^-10 s is exact (the harness uses only such times); ulp effects of real clocks are outside the model',
@@ -101,6 +101,7 @@ def gen_cases(rng, tier):
                     c['pay'] = [x if x is not None else rng.choice(GB_PAY) for x in c['pay']]
             calls.append(c)
         cases.append({'kind': 'cache', 'payloads': payloads, 'files': files, 'calls': calls})
+    cases += gen_name_cases()
     nclient, nlong = (6000, 600) if tier == 'thorough' else (500, 40)
     for _ in range(nclient):
         cases.append(gen_client_case(rng))
@@ -608,8 +609,61 @@ def spec_client(case, iv):
     return None
 
 
+# ----------------------------------------------------------------------------- file-name stream: (path, id, ext) -> name, any strings
+NPATHS = ['p0', 'p0/', 'a/b', '/proc/C19-none/c', '/proc/C19-none/c/']      # '' as path means "no path=" (truthiness), tested in the client stream
+NIDS = ['x', 'AB0001.1', 'a/b', '../x', './x', 'a//b', '/proc/C19-none/abs', '/', '', '.', 'x/']
+NEXTS = ['fa', '', 'a.b', 'x/y', '/e']
+
+
+def gen_name_cases():
+    return [{'kind': 'name', 'path': p, 'id': i, 'ext': e} for p in NPATHS for i in NIDS for e in NEXTS]
+
+
+def impl_name(case):
+    """fetch_seq with the file system taken away: os (as seen by _entrez) answers "no such file, directory exists" and open() only
+    records the name. Names that would leave the scratch directory are under /proc (nothing can be created there)."""
+    import posixpath
+    w = _World()
+    w.install()
+    root = tempfile.mkdtemp(prefix='C19-')
+    cwd = os.getcwd()
+    E = w.E
+    opened = []
+
+    class _F(io.StringIO):
+        def __exit__(self, *a):
+            return False
+
+    def fake_open(name, mode='r', *a, **k):
+        opened.append((name, mode))
+        return _F()
+    shim_path = types.SimpleNamespace(join=posixpath.join, isfile=lambda n: False, isdir=lambda n: True, getsize=lambda n: 0,
+                                      exists=lambda n: False)
+    shim = types.SimpleNamespace(path=shim_path, makedirs=lambda *a, **k: None, getenv=os.getenv, fspath=os.fspath, sep='/')
+    saved = (E.os, E.__dict__.get('open'))
+    try:
+        os.chdir(root)
+        E.os, E.open = shim, fake_open
+        w.payload = lambda seqid: '>x\nA\n'
+        client = E.Entrez(path=None, api_key=None)
+        r = client.fetch_seq(case['id'], rettype='fasta', ext=case['ext'], path=case['path'])
+        assert type(r) is str, 'file name is a %s' % type(r).__name__
+        assert opened == [(r, 'w')], 'opened %r, returned %r' % (opened, r)
+        assert w.requested == [case['id']]
+        return r
+    finally:
+        E.os = saved[0]
+        if saved[1] is None:
+            E.__dict__.pop('open', None)
+        else:
+            E.open = saved[1]
+        w.restore()
+        os.chdir(cwd)
+        shutil.rmtree(root, ignore_errors=True)
+
+
 def impl(case):
-    return {'rate': impl_rate, 'cache': impl_cache, 'client': impl_client}[case['kind']](case)
+    return {'rate': impl_rate, 'cache': impl_cache, 'client': impl_client, 'name': impl_name}[case['kind']](case)
 
 
 # ----------------------------------------------------------------------------- model terms
@@ -619,6 +673,8 @@ def model_term(case):
         return 'out (run_C19_rate %s %s)' % (coq_bool(case['api']), cs)
     if case['kind'] == 'client':
         return client_term(case)
+    if case['kind'] == 'name':
+        return 'out (run_C19_name %s %s %s)' % (coq_bs(case['path']), coq_bs(case['id']), coq_bs(case['ext']))
     files = coq_list([coq_pair(coq_N(p), coq_N(i), coq_N(e), coq_bs(ct)) for p, i, e, ct in case['files']])
     flat = []
     for c in case['calls']:
@@ -637,7 +693,7 @@ def agree(case, iv, mv):
         return iv == mv
     if isinstance(iv, dict):
         return False
-    if case['kind'] == 'client':
+    if case['kind'] in ('client', 'name'):
         return iv == mv
     flat = [x for call in iv for x in call]
     # a get_* call on several ids stops at the first failing read only after all fetches: fetch part is complete
@@ -677,6 +733,12 @@ def spec(case, iv):
         return None
     if case['kind'] == 'client':
         return spec_client(case, iv)
+    if case['kind'] == 'name':
+        # the documented name <path>/<id>.<ext> for ids that are plain names; elsewhere the property is silent (see fname_absolute_id)
+        if '/' in case['id'] or case['id'] in ('', '.') or '/' in case['ext']:
+            return None
+        want = case['path'].rstrip('/') + '/' + case['id'] + '.' + case['ext']
+        return None if iv == want else 'cache file is %r, documented %r' % (iv, want)
     # cache: simulate the documented decision
     fs = {(p, i, EXT[e] or 'fasta'): ct for p, i, e, ct in case['files']}
     exp = []
@@ -703,6 +765,8 @@ def nontrivial(case, iv):
         return None
     if case['kind'] == 'rate':
         return 'slept' if any(iv[1]) else None
+    if case['kind'] == 'name':
+        return 'slash' if '/' in case['id'] + case['ext'] else 'plain'
     if case['kind'] == 'client':
         evs = [e for o in iv for e in o[0]]
         marks = sorted({'hit' if not e[0] else 'slept' if e[2] else 'req' for e in evs} | {'exc' for o in iv if isinstance(o[1], dict)})
@@ -714,6 +778,8 @@ def histkey(case, iv):
     if case['kind'] == 'rate':
         return ['rate', 'len=%d' % len(case['calls']), 'api' if case['api'] else 'nokey',
                 'slept' if not isinstance(iv, dict) and any(iv[1]) else 'noslept']
+    if case['kind'] == 'name':
+        return ['name']
     if case['kind'] == 'client':
         ks = {bool(o['key']) for o in case['ops']}
         return ['client', 'ops=%d' % (len(case['ops']) // 5 * 5), 'keys=' + ('mixed' if len(ks) > 1 else 'const')] + sorted({o['m'] for o in case['ops']})
@@ -725,15 +791,27 @@ def python_snippet(case):
             'print(c19.impl(json.loads(%r)))' % __import__('json').dumps(case))
 
 
+def _try(fn, case):
+    try:
+        return fn(case)
+    except Exception as ex:      # an exception of the harness' own assertions (e.g. sleep(0)) is an observation, not a crash
+        return {'e': type(ex).__name__, 'msg': str(ex)[:200]}
+
+
+def _fetch_op(key, gap):
+    return {'m': 'fetch_seq', 'gap': gap, 'key': key, 'self': None, 'path': None, 'pathobj': False, 'ids': ['X'],
+            'rettype': 'fasta', 'ext': None, 'ow': False, 'env': [[0, 0, PAY[0], False]]}
+
+
 def extra_checks(rng, tier, cov):
-    """exhaustive timing box against the window oracle (no model needed)"""
+    """exhaustive timing boxes against the window oracle (no model needed)"""
     gaps, durs = [0, 256, 512, 1024], [0, 256]
     maxlen = 7 if tier == 'thorough' else 4
     n = 0
     for L in range(1, maxlen + 1):
         for hist in itertools.product(itertools.product(gaps, durs), repeat=L):
             case = {'kind': 'rate', 'api': False, 'calls': [[g, 0, d] for g, d in hist]}
-            iv = impl_rate(case)
+            iv = _try(impl_rate, case)
             n += 1
             sp = spec(case, iv)
             if sp:
@@ -741,5 +819,35 @@ def extra_checks(rng, tier, cov):
                 return
     cov['exhaustive_timing_histories'] = n
     cov['exhaustive_box'] = 'all histories of length <= %d over gaps {0,1/4,1/2,1}s x durations {0,1/4}s, no API key' % maxlen
+    # the same with an API key: the first 9 requests at once (deque nearly full), then the box
+    maxlen = 5 if tier == 'thorough' else 3
+    n = 0
+    for L in range(1, maxlen + 1):
+        for hist in itertools.product(itertools.product(gaps, durs), repeat=L):
+            case = {'kind': 'rate', 'api': True, 'calls': [[0, 0, 0]] * 9 + [[g, 0, d] for g, d in hist]}
+            iv = _try(impl_rate, case)
+            n += 1
+            sp = spec(case, iv)
+            if sp:
+                yield {'case': case, 'impl': iv, 'spec': sp}
+                return
+    cov['exhaustive_timing_histories_api_key'] = n
+    # key switches on one client: every sequence of (key setting, gap) after three kinds of past
+    prefixes = [[], [_fetch_op(None, 0)] * 3, [_fetch_op('KEY', 0)] * 10]
+    boxes = [(4, [0, 512, 1024]), (6, [0, 1024])] if tier == 'thorough' else [(3, [0, 512, 1024])]
+    n = 0
+    for maxlen, gs in boxes:
+        for pre in prefixes:
+            for L in range(1, maxlen + 1):
+                for hist in itertools.product(itertools.product([None, 'KEY'], gs), repeat=L):
+                    case = {'kind': 'client', 'files': [], 'ops': pre + [_fetch_op(k, g) for k, g in hist]}
+                    iv = _try(impl_client, case)
+                    n += 1
+                    sp = spec(case, iv)
+                    if sp:
+                        yield {'case': case, 'impl': iv, 'spec': sp}
+                        return
+    cov['exhaustive_key_switch_histories'] = n
+
 
 MODELLED_FUNCS = {'sugar/web/_entrez.py': ['Entrez.wait_before_request', 'Entrez.fetch_seq', 'Entrez.fetch_basket', 'Entrez.get_seq', 'Entrez.get_basket']}
